@@ -1,13 +1,9 @@
-/- line-protocol engine `core`: the core-language evaluator (C01, C02, C03, C06, C07, C08).
-
-Request:  core run <depth|-> <calls|-> <rec|-> <tco 0|1> <fuel> <program as one S-expression …>
-Response: <outcome> ; out=|<line>|<line>… ; <name>=<dump> ; …
-  outcome = ok | viol:<kind> | stuck:<why> | oof
--/
-import XrayModel.Core
-import Driver.CoreXRun
-open XrayModel.Core
-namespace XrayDriver.CoreE
+/- `core runx …`: the same line protocol as `core run` (Driver/Core.lean) for the extended evaluator
+`XrayModel/CoreX.lean`.  Additional S-expression forms: (variant <tag> e) (mval e <tag>) (mopt e <tag>);
+additional dumps: (union <tag> v) (some v) (none). -/
+import XrayModel.CoreX
+open XrayModel.CoreX
+namespace XrayDriver.CoreXE
 
 inductive SExp where
   | atom (s : String)
@@ -69,6 +65,18 @@ mutual
         let e' ← toExpr e
         let i ← n.toNat?
         pure (.item e' i)
+    | .list [.atom "variant", .atom n, e] => do
+        let e' ← toExpr e
+        let i ← n.toNat?
+        pure (.variant i e')
+    | .list [.atom "mval", e, .atom n] => do
+        let e' ← toExpr e
+        let i ← n.toNat?
+        pure (.memberValue e' i)
+    | .list [.atom "mopt", e, .atom n] => do
+        let e' ← toExpr e
+        let i ← n.toNat?
+        pure (.memberOpt e' i)
     | _ => none
   partial def toParam : SExp → Option Param
     | .list [.atom "p", .atom n] => some (.mk n none)
@@ -92,6 +100,9 @@ partial def dumpVal : Val → String
   | .arr vs => "(seq" ++ String.join (vs.map (fun v => " " ++ dumpVal v)) ++ ")"
   | .clos .. => "(fn)"
   | .err m => "(error \"" ++ m ++ "\")"
+  | .variant t v => s!"(union {t} " ++ dumpVal v ++ ")"
+  | .some v => "(some " ++ dumpVal v ++ ")"
+  | .none => "(none)"
 
 def showViol : Viol → String
   | .depth => "MaximumStackDepth"
@@ -101,7 +112,7 @@ def showViol : Viol → String
 def optNat (s : String) : Option (Option Nat) :=
   if s == "-" then some none else s.toNat?.map some
 
-def coreRun (args : List String) : String :=
+def coreRunX (args : List String) : String :=
   match args with
   | d :: c :: r :: tco :: fuel :: rest =>
     match optNat d, optNat c, optNat r, fuel.toNat?, parseSExp (tokenize (String.intercalate " " rest)) with
@@ -124,12 +135,4 @@ def coreRun (args : List String) : String :=
     | _, _, _, _, _ => "bad-op"
   | _ => "bad-op"
 
-end XrayDriver.CoreE
-
-namespace XrayDriver
-def coreEngine (f : String) (args : List String) : String :=
-  match f with
-  | "run" => CoreE.coreRun args
-  | "runx" => CoreXE.coreRunX args
-  | _ => "bad-op"
-end XrayDriver
+end XrayDriver.CoreXE
